@@ -529,6 +529,38 @@ RECUR_DISPOSITIONS = {
 PROPERTIES["C08"]["rules"] += [("RECUR", lambda ctx: rule_recur(ctx.lib, RECUR_DISPOSITIONS))]
 PROPERTIES["C08"]["explanation"] += " (RECUR) Strongly connected components of the MIR call graph reachable from interpret_with_settings that recurse over the token stream or a syntax/type/unit structure are listed; none has a depth guard. Two have witness inputs (known findings: the process aborts with a stack overflow), the rest are reported as unresolved advisories because an earlier phase overflows first."
 
+for _pid in ("C02", "C01"):
+    PROPERTIES[_pid]["rules"] += [("TRAV.apply_substitution_env", trav("apply_substitution_env"))]
+    PROPERTIES[_pid]["explanation"] += " (TRAV.apply_substitution_env) The solved substitution is applied to the type recorded for every kind of identifier in the checker's environment (variables, functions, the predefined ans/_), so no identifier keeps an unsolved type variable that generalisation would turn into `forall A. A`."
+
+from shift import rule_shift  # noqa: E402
+
+
+def shift_control(ctx):
+    import controls
+    from core import RuleOut
+    from hirlib import Crate
+
+    c = Crate(controls.load())
+    probe = rule_shift([c], min_bodies=0, skip_tests=False)
+    out = RuleOut("SHIFT.control", "positive control for a rule whose expected count on numbat is zero")
+    if any(f.verdict == "violation" and "shift_control" in f.key for f in probe.findings):
+        out.ok("control", "engine/nbfacts/controls/src/lib.rs", 1, "matcher fired on the planted `1u64 << exp`")
+    else:
+        out.error("positive control failed: SHIFT did not report the planted shift in the control crate")
+    return out
+
+
+for _pid in ("C08", "C04"):
+    PROPERTIES[_pid]["rules"] += [("SHIFT", lambda ctx: rule_shift([ctx.lib, ctx.bin])), ("SHIFT.control", shift_control)]
+PROPERTIES["C08"]["explanation"] += " (SHIFT) No integer shift by an unbounded run-time amount anywhere in the library or the CLI (panics in checked builds)."
+PROPERTIES["C04"]["explanation"] += " (SHIFT) Prefix and unit factors are not computed with wrapping/masked integer shifts: there is no shift by an unbounded run-time amount in the library (2^n by `powi`, not by `1 << n`)."
+
+from perinput import rule_perinput  # noqa: E402
+
+PROPERTIES["C07"]["rules"] += [("PERINPUT", lambda ctx: rule_perinput(ctx.lib))]
+PROPERTIES["C07"]["explanation"] += " (PERINPUT) Necessary condition of 'incremental and batched evaluation agree': the per-input epilogue after Vm::run (BytecodeInterpreter::run / interpret_statements) assigns no interpreter field and calls only methods with an empty modification set, so everything later statements read (ans, variables) is written per statement by the bytecode itself."
+
 NOT_APPLICABLE = {
     "C03": "numerical agreement of conversion factors over 500 units is a statement about run-time values; no structural clause is a necessary condition that is not already covered under C04/C11/C12 (static analysis cannot bound the arithmetic)",
     "C14": "a statement about the decimal rendering of every f64 under every format setting; the code delegates to pretty_dtoa/num_format and no structural clause of Number::pretty_print_with_dtoa_config can be decided without evaluating it",
